@@ -82,15 +82,7 @@ Definition points_side : bool :=
   && in_range enf_index_search_size_min enf_index_search_size_max v1_default_search_size
   && in_range enf_degree_min enf_degree_max v1_default_degree
   && alpha_ok v1_default_alpha_f32
-  && mem "vectorVamana" enf_index_types
-  (* the query a v1 search builds passes Query.Validate *)
-  && sub_range enf_v1_search_vector_min enf_v1_search_vector_max enf_query_vector_min enf_query_vector_max
-  && in_range enf_search_size_min enf_search_size_max v1_query_search_size
-  && (enf_v1_search_limit_max <=? enf_vamana_limit_max) && (enf_vamana_limit_min <=? 1)
-  && (0 <=? enf_v1_search_limit_min)
-  && in_range enf_vamana_limit_min enf_vamana_limit_max 10
-  && (enf_vamana_limit_max <=? v1_query_search_size)
-  && mem "near" enf_vamana_ops.
+  && mem "vectorVamana" enf_index_types.
 Lemma points_side_ok : points_side = true. Proof. vm_compute. reflexivity. Qed.
 
 Definition handler_side : bool :=
@@ -916,32 +908,4 @@ Proof.
   unfold validate_search1 in H. peel H Vl.
   assert (R : in_range 1 doc_v1_search_vector_max (s1_len r) = true) by use_sub.
   unfold in_range in R. peel R R2. unfold doc_search1. split_goal; [exact R | exact R2 | use_sub].
-Qed.
-
-Lemma v1_limit_arith : forall lo1 hi1 lo2 hi2 x,
-  (hi1 <=? hi2) = true -> (lo2 <=? 1) = true -> (0 <=? lo1) = true -> x <> 0 ->
-  in_range lo1 hi1 x = true -> in_range lo2 hi2 x = true.
-Proof.
-  intros lo1 hi1 lo2 hi2 x A B C D E. apply Z.leb_le in A, B, C. apply in_range_spec in E. apply in_range_spec. lia.
-Qed.
-
-(* what the v1 search handler hands to the cluster passes the v2 query validation *)
-Lemma v1_query_valid : forall r, validate_search1 r = true -> validate_query (v1_query r) = true.
-Proof.
-  intros r H. pose proof points_side_ok as PS. unfold points_side in PS. split_side PS.
-  pose proof search_side_ok as SS. unfold search_side in SS. split_side SS.
-  unfold validate_search1 in H. peel H Vl.
-  assert (Lim : in_range enf_vamana_limit_min enf_vamana_limit_max (if s1_limit r =? 0 then 10 else s1_limit r) = true).
-  { destruct (s1_limit r =? 0) eqn:E; [assumption|]. apply Z.eqb_neq in E.
-    match goal with
-    | [ A : (enf_v1_search_limit_max <=? enf_vamana_limit_max) = true, B : (enf_vamana_limit_min <=? 1) = true,
-        C : (0 <=? enf_v1_search_limit_min) = true |- _ ] => exact (v1_limit_arith _ _ _ _ _ A B C E Vl)
-    end. }
-  assert (Ge : ((if s1_limit r =? 0 then 10 else s1_limit r) <=? v1_query_search_size) = true).
-  { apply in_range_spec in Lim. apply Z.leb_le.
-    match goal with [ X : (enf_vamana_limit_max <=? v1_query_search_size) = true |- _ ] => apply Z.leb_le in X; clear - X Lim; lia end. }
-  unfold v1_query. cbn [validate_query]. rewrite ?gate_true by assumption. cbn [oall forallb r_len r_op r_ssize r_limit r_filter].
-  cbn [seq String.eqb Ascii.eqb Bool.eqb andb negb].
-  rewrite ?andb_true_r. split_goal; try assumption.
-  use_sub.
 Qed.
